@@ -131,6 +131,7 @@ class FakeStream:
     def client_reset(self) -> None:
         self.in_error = ConnectionResetError(104, "Connection reset by peer")
         self.inbox.clear()
+        self.buffer.clear()  # a reset connection delivers nothing more to the client
         self.readable.set()
         self.writable.set()
 
